@@ -224,6 +224,36 @@ fn inv_fail(b: &Bundle, last_payload: &Option<Vec<u8>>) -> Option<String> {
     }
 }
 
+
+/// An object with a history must behave like a fresh object of equal value: run the read-only operations on
+/// `b`, edit public fields in place (chosen by `salt`), and compare every observable result with those of a
+/// bundle rebuilt from the notation (fresh blocks, nothing remembered). Returns the first difference.
+pub fn history_vs_fresh(b: &Bundle, salt: u64) -> Option<String> {
+    let mut h = b.clone();
+    let _ = no_panic(|| { let _ = h.validate(); let _ = h.payload().map(|p| p.len()); let _ = h.id(); let _ = h.previous_node().map(|e| e.to_string());
+        let _ = h.is_administrative_record(); let _ = h.extension_block_by_type(10).is_some(); let _ = h.extension_block_by_type(7).is_some(); let _ = h.clone().crc_valid(); })?;
+    let n = h.canonicals.len() as u64;
+    match salt % 9 {
+        0 if n > 0 => { let k = (salt / 9 % n) as usize; h.canonicals[k].block_number = h.canonicals[k].block_number.wrapping_add(1 + salt / 97 % 3); }
+        1 if n > 0 => { let k = (salt / 9 % n) as usize; h.canonicals[k].block_type = [1u64, 6, 7, 10, 11, 192][(salt / 97 % 6) as usize]; }
+        2 if n > 0 => { let k = (salt / 9 % n) as usize; h.canonicals[k].block_control_flags ^= [1u8, 2, 4, 0x10, 0x80][(salt / 97 % 5) as usize]; }
+        3 => { h.primary.bundle_control_flags ^= [1u64, 2, 4, 0x40, 0x4000, 0x40000][(salt / 97 % 6) as usize]; }
+        4 => { h.primary.source = if salt / 97 % 2 == 0 { EndpointID::none() } else { EndpointID::with_ipn(9, salt / 197 % 3).unwrap() }; }
+        5 => { h.primary.creation_timestamp = CreationTimestamp::with_time_and_seq(if salt / 97 % 2 == 0 { 0 } else { 77 }, salt / 197 % 3); }
+        6 if n > 1 => { h.canonicals.swap(0, n as usize - 1); }
+        7 if n > 0 => { let k = (salt / 9 % n) as usize; h.canonicals.remove(k); }
+        _ => {}
+    }
+    let (fresh, used) = parse_bundle(&show_bundle(&h).split(' ').collect::<Vec<_>>())?;
+    let _ = used;
+    if fresh != h { return None; }   // notation does not carry this value exactly: not judged
+    let obs = |x: &Bundle| no_panic(|| (validate_kinds(x), x.id(), x.to_string(), x.payload().cloned(), x.previous_node().map(|e| e.to_string()), x.is_administrative_record(),
+        x.clone().crc_valid(), x.clone().to_cbor(), x.primary.is_lifetime_exceeded()));
+    let (a, f) = (obs(&h), obs(&fresh));
+    if a != f { return Some(format!("a bundle that was inspected and then edited in place (edit {}) answers differently from a freshly built bundle of equal value: {} vs {}", salt % 9, clip(&format!("{:?}", a)), clip(&format!("{:?}", f)))); }
+    None
+}
+
 pub fn exec(line: &str, _model: &mut Model) -> Option<Exec> {
     let t: Vec<&str> = line.split(' ').collect();
     match t[0] {
@@ -236,13 +266,17 @@ pub fn exec(line: &str, _model: &mut Model) -> Option<Exec> {
                 if k.is_empty() != sv { e.oracle_fail = Some(format!("validate() says {}, the RFC rules of the property say {}", if k.is_empty() { "valid".to_string() } else { format!("invalid {:?}", k) }, if sv { "valid" } else { "invalid" })); }
                 e.tags.push(format!("valid:{}", sv));
             } else { e.tags.push("valid:not-judged".into()); }
+            if e.oracle_fail.is_none() { set_clock_dtn(1_000); e.oracle_fail = history_vs_fresh(&b, line.len() as u64 * 31 + line.bytes().map(|x| x as u64).sum::<u64>()); }
             Some(e)
         }
         "id" => {
             let (b, n) = parse_bundle(&t[1..])?;
             if n + 1 != t.len() { return None; }
             let r = no_panic(|| (b.id(), b.to_string()));
-            Some(Exec::new(match r { Some((i, d)) => format!("ok {} {}", hex(i.as_bytes()), hex(d.as_bytes())), None => "panic".into() }))
+            let mut e = Exec::new(match r { Some((i, d)) => format!("ok {} {}", hex(i.as_bytes()), hex(d.as_bytes())), None => "panic".into() });
+            set_clock_dtn(1_000);
+            e.oracle_fail = history_vs_fresh(&b, line.len() as u64 * 31 + line.bytes().map(|x| x as u64).sum::<u64>());
+            Some(e)
         }
         "idpair" => {
             // idpair <B1> | <B2>
@@ -730,6 +764,8 @@ fn gen_c08(rng: &mut Rng, ctx: &mut Ctx, rep: &mut Report, emit: Emit) {
         b.primary.creation_timestamp = CreationTimestamp::with_time_and_seq(ts, rng.below(5));
         let mut rt: u128 = bv(rng, life) as u128;
         if rng.chance(1, 10) { rt = *rng.pick(&[u128::MAX, 1u128 << 64, (1u128 << 64) - 1, (1u128 << 64) + 1]); }
+        // beyond 64 bits with arbitrary (often small) low bits: k * 2^64 + r
+        if rng.chance(1, 12) { rt = ((1 + rng.below(1 << 20)) as u128) << (64 + rng.below(44)) | bv(rng, life) as u128; }
         if rng.chance(2, 3) {
             let age = match rng.below(6) { 0 => life.saturating_sub(rt as u64), 1 => life.saturating_sub(rt as u64).saturating_add(1), 2 => life.saturating_sub(rt as u64).saturating_sub(1), _ => bv(rng, life) };
             b.canonicals.insert(0, new_canonical_block(7, 8, 0, CanonicalData::BundleAge(age)));
@@ -787,7 +823,15 @@ fn gen_c10(rng: &mut Rng, ctx: &mut Ctx, rep: &mut Report, emit: Emit) {
                 emit(ctx, rep, format!("eid.cbor {}", show_eid(&e)));
             }
             _ => {
-                let e = gen_eid_wf(rng);
+                let mut e = gen_eid_wf(rng);
+                // endpoint IDs whose current service repeats the tail of "//node/" (what a textual replacement of the
+                // old service would trip over): "dtn://node1/1/", "dtn://node1/node1/", "dtn://node1//"
+                if rng.chance(1, 6) {
+                    let node = gen_name(rng, false, false);
+                    let tail: String = node.chars().rev().take(1 + rng.below(3) as usize).collect::<Vec<_>>().into_iter().rev().collect();
+                    let old = match rng.below(4) { 0 => format!("{}/", tail), 1 => format!("{}/", node), 2 => "/".to_string(), _ => tail };
+                    e = EndpointID::Dtn(1, dtn_address(format!("//{}/{}", node, old).as_bytes()).unwrap());
+                }
                 let svc = match rng.below(6) { 0 => format!(" {} ", rng.below(100)), 1 => format!("\u{2003}{}\u{a0}", rng.below(100)), 2 => nums(rng), 3 => String::new(), _ => gen_name(rng, true, true) };
                 emit(ctx, rep, format!("eid.newep {} {}", show_eid(&e), hex(svc.as_bytes())));
                 if rng.chance(1, 3) { emit(ctx, rep, format!("eid.withdtn {}", hex(gen_name(rng, true, true).as_bytes()))); }
@@ -854,7 +898,13 @@ fn gen_c12(rng: &mut Rng, ctx: &mut Ctx, rep: &mut Report, emit: Emit) {
         if i % 2 == 0 {
             let rec = if rng.chance(1, 5) {
                 let c = match rng.below(4) { 0 => 0u32, 1 => 2, 2 => u32::MAX, _ => 2 + rng.below(1000) as u32 };
-                AdministrativeRecord::Unknown(if rng.chance(1, 20) { 1 } else { c }, gen_payload(rng))
+                // opaque content -- now and then content that is itself the encoding of a status report / a record
+                let content = if rng.chance(1, 4) {
+                    let sr = StatusReport { status_information: (0..4).map(|k| BundleStatusItem { asserted: k == 0, time: 0, status_requested: false }).collect(), report_reason: rng.below(10) as u32,
+                        source_node: gen_eid_wf(rng), timestamp: CreationTimestamp::with_time_and_seq(rng.u64b(), rng.u64b()), frag_offset: 0, frag_len: 0 };
+                    if rng.chance(1, 2) { serde_cbor::to_vec(&sr).unwrap() } else { serde_cbor::to_vec(&AdministrativeRecord::BundleStatusReport(sr)).unwrap() }
+                } else { gen_payload(rng) };
+                AdministrativeRecord::Unknown(if rng.chance(1, 20) { 1 } else { c }, content)
             } else {
                 let n = match rng.below(6) { 0 => 0, 1 => 6, 2 => 1, _ => 4 };
                 let items = (0..n).map(|_| { let a = rng.chance(1, 2); let r = a && rng.chance(1, 2); BundleStatusItem { asserted: a, time: if r { rng.u64b() } else if rng.chance(1, 30) { 5 } else { 0 }, status_requested: if rng.chance(1, 40) { !r } else { r } } }).collect();
@@ -868,6 +918,8 @@ fn gen_c12(rng: &mut Rng, ctx: &mut Ctx, rep: &mut Report, emit: Emit) {
             let mut b = gen_valid_bundle(rng);
             b.primary.bundle_control_flags &= !1;
             b.primary.fragmentation_offset = 0; b.primary.total_data_length = 0;
+            // fragment fields left over on a bundle that is not a fragment (reassembled, flag cleared) change nothing
+            if rng.chance(1, 8) { b.primary.fragmentation_offset = rng.u64b(); b.primary.total_data_length = 1 + rng.u64b() / 2; }
             if rng.chance(9, 10) && b.primary.report_to == EndpointID::none() { b.primary.report_to = EndpointID::with_dtn("rpt/x").unwrap(); }
             if rng.chance(1, 2) { b.primary.bundle_control_flags |= 0x40; }
             let src = loop { let e = gen_eid_wf(rng); if e != EndpointID::none() { break e; } };
